@@ -4,7 +4,7 @@ Each module defines  register(reg) -> {property_id: {unit_name: unit}}.
 """
 import importlib
 
-MODULES = ['util', 'inputfile', 'tokenizer', 'walker', 'visitor']
+MODULES = ['util', 'inputfile', 'tokenizer', 'walker', 'visitor', 'contextdb']
 REPLAYERS = {}
 EXTRA_ASSUMPTIONS = {}
 
@@ -25,4 +25,10 @@ def build(reg, only=None):
         mod = importlib.import_module('contracts.' + m)
         for pid, us in mod.register(reg).items():
             units.setdefault(pid, {}).update(us)
+    # the tokenizer (C11) relies on LatexContextDb.test_for_specials / get_specials_spec: their units also
+    # belong to C11, so that a change breaking them is reported there as well
+    if 'C11' in units and 'C14' in units:
+        for k in ('test_for_specials', 'get_specials_spec'):
+            if k in units['C14']:
+                units['C11'][k] = units['C14'][k]
     return units
